@@ -193,6 +193,21 @@ func getParentFromKey(sp interface{}, key string) (string, string, interface{}, 
 	return parent, entry, pvalue, nil
 }
 
+// isNilTarget tells whether a key resolved to a nil pointer, i.e. designates an absent schema,
+// items or additionalProperties (e.g. a stale key, after the holder has been replaced by a $ref).
+func isNilTarget(value interface{}) bool {
+	switch v := value.(type) {
+	case *spec.Schema:
+		return v == nil
+	case *spec.SchemaOrArray:
+		return v == nil
+	case *spec.SchemaOrBool:
+		return v == nil
+	}
+
+	return false
+}
+
 // UpdateRef replaces a ref by another one
 func UpdateRef(sp interface{}, key string, ref spec.Ref) error {
 	switch sp.(type) {
@@ -205,6 +220,11 @@ func UpdateRef(sp interface{}, key string, ref spec.Ref) error {
 	pth, value, err := getPointerFromKey(sp, key)
 	if err != nil {
 		return err
+	}
+
+	if isNilTarget(value) {
+		// typed nil: the key designates a schema, items or additionalProperties that is no longer there
+		return ErrNoSchemaWithRef(key, value)
 	}
 
 	switch refable := value.(type) {
@@ -270,6 +290,11 @@ func UpdateRefWithSchema(sp *spec.Swagger, key string, sch *spec.Schema) error {
 		return err
 	}
 
+	if isNilTarget(value) {
+		// typed nil: the key designates a schema, items or additionalProperties that is no longer there
+		return ErrNoSchemaWithRef(key, value)
+	}
+
 	switch refable := value.(type) {
 	case *spec.Schema:
 		*refable = *sch
@@ -310,9 +335,15 @@ func UpdateRefWithSchema(sp *spec.Swagger, key string, sch *spec.Schema) error {
 			return ErrUnhandledParentType(key, value)
 		}
 	case *spec.SchemaOrArray:
+		if refable.Schema == nil {
+			return ErrNoSchemaWithRef(key, value)
+		}
 		*refable.Schema = *sch
 	// NOTE: can't have case *spec.SchemaOrBool = parent in this case is *Schema
 	case *spec.SchemaOrBool:
+		if refable.Schema == nil {
+			return ErrNoSchemaWithRef(key, value)
+		}
 		*refable.Schema = *sch
 	default:
 		return ErrNoSchemaWithRef(key, value)
